@@ -10,7 +10,7 @@ import progs
 
 RULE = ("programs from the core grammar extended with every printing element (, … ₴ ¨, ¨…) on scalars, lists, lazy lists and functions, with E "
         "(evaluate), † (call) and Ė (execute) on strings, and inputs / string literals carrying a taint marker (including Python expressions with "
-        "side effects); each case runs in a child process under sys.addaudithook with fd-level capture of the host's stdout. Oracles: the host's "
+        "side effects, alone and behind a literal-looking prefix such as 1/2, [1,2], 'a', 0x10); each case runs in a child process under sys.addaudithook with fd-level capture of the host's stdout. Oracles: the host's "
         "stdout stays empty; no compile / exec audit event carries the marker anywhere but inside a string constant of generated code; no "
         "input() / os.system / subprocess / socket event; an exception ends in the error record and exit status, not in a traceback; the output "
         "record equals what the same program prints offline. Non-trivial = distinct (program, inputs).")
@@ -153,6 +153,12 @@ TAINTS = [f"print('{MARK}')", f"__import__('os').system('echo {MARK}')", f"{MARK
           f"(lambda: {MARK})()", f"1 if {MARK} else 2", "1+1", "[1,2,3]", '"abc"', "3.5"]
 
 
+# injection payloads ride on text the input reader accepts: a literal-looking prefix followed by an expression with a side effect
+PREFIXES = ["1", "1/2", "-3", "3.5", "1e3", "[1,2]", "'a'", '"a"', "1,2", "0x10", "(1)", "True", " 7", "1 / 2", "12/34"]
+TAILS = ["+0*len([print('%s')])", " and print('%s')", "if print('%s') else 0", "+[print('%s')]", "*(print('%s') or 1)", "**print('%s')"]
+PREFIXED = [p + (t % MARK) for p in PREFIXES for t in TAILS]
+
+
 def run(ctx, widen=False):
     thorough = ctx.tier == "thorough" or widen
     rng = ctx.rng
@@ -160,10 +166,10 @@ def run(ctx, widen=False):
     # (a) tainted inputs with programs that read, evaluate, call, execute and print them
     readers = ["?", "?E", "??+", "?,", "?…", "?₴", "?†", "?Ė", "?S E", "□", "?:E$,", "λ?E;†", "?`E`+Ė", "3(?E,)", "?ṅE", "⟨?|?⟩vE", "?q E", "?øV", "?E ¨,", "?E¨…"]
     for prog in readers:
-        for t in (TAINTS if thorough else rng.sample(TAINTS, 5)):
+        for t in (TAINTS + PREFIXED if thorough else rng.sample(TAINTS, 5) + rng.sample(PREFIXED, 12)):
             cases.append({"prog": prog, "inputs": [t, t], "compare": False})
     # (b) tainted string literals inside the program
-    for t in TAINTS[:8]:
+    for t in TAINTS[:8] + (PREFIXED if thorough else rng.sample(PREFIXED, 10)):
         q = t.replace("\\", "\\\\").replace("`", "\\`")
         for tail in ["E", "†", "Ė", ",", "E,", "…", ":E", "S", "q E", "→a ←a E"]:
             cases.append({"prog": "`" + q + "`" + tail, "inputs": [], "compare": False})
